@@ -76,6 +76,7 @@ def run(ck, F, tier):
     ck.rule("V3", "quantiser range and shape")
     ck.rule("V4", "hook closures applied match the type name")
     ck.rule("V5", "layered update = extrinsic in, extrinsic + new message out")
+    ck.rule("V5b", "8-bit check rules work on quantised (i8, clipped) magnitudes only: abs/min/lookup never see the i16 accumulator")
     ck.trust("interval models of exp, ln_1p, round, abs, min, max, saturating_add, float->int `as` (saturating, NaN -> 0), Iterator::sum over at most %d terms" % maxdeg)
     ck.trust("type-field invariant (assume on load, prove on store): message values, quantised LLRs and scratch entries lie in [-127,127]")
     ck.trust("precondition: check nodes have degree >= 2 with distinct neighbours (the expect() sites), vars[msg.dest] indexes stay in range (topology, C03-F2)")
@@ -288,6 +289,23 @@ def run(ck, F, tier):
             ok = isinstance(total, Poly) and isinstance(new, Poly) and oldv is not None and total == tgt - oldv + new and repr(vs.loops) == repr(ms.loops)
             why = "vars[d] <- %s ; msg.value <- new ; required vars[d] - old msg.value + new message, in the same loop as the message store (%s)" % (repr(total)[:120], ok)
         ck.inst("V5", ty + ":layered-update", ok, b.span, why)
+
+    # ---- V5b ------------------------------------------------------------------------------------------------
+    for ty in sorted(eight):
+        for meth in ("send_check_messages", "update_check_messages_and_vars"):
+            b = F.body("<%s%s as %s>::%s" % (ARI, ty, TRAIT, meth))
+            wide = []
+            nmag = 0
+            for n in walk(b.value):
+                if n.get("k") == "mcall" and n["m"] in ("abs", "min", "saturating_add"):
+                    nmag += 1
+                    rty = strip(n["recv"]).get("ty", "").lstrip("&")
+                    if rty != "i8":
+                        wide.append((n["m"], rty, n["sp"]))
+            ck.inst("V5b", "%s:%s" % (ty, meth), not wide and nmag >= 3, b.span,
+                    "%d magnitude operations, all on i8 operands" % nmag if not wide else
+                    "magnitude operation %s() applied to a %s value: the check rule must see the clipped extrinsic (the flooding rule's domain), "
+                    "otherwise saturated inputs are ordered differently than in the flooding rule" % (wide[0][0], wide[0][1]))
 
     # ---- V4 -------------------------------------------------------------------------------------------------
     for ty in sorted(eight):
